@@ -464,6 +464,23 @@ class Evaluator:
                 c = children(n)
                 return tuple(litem(c, i) for i in range(llen(c))) if c is not None else ()
             return kids
+        if name.startswith(("Ht<", "HtL<")):
+            kind, _, k = name[:-1].partition("<")
+            key = [kk for kk, v in L._HEIGHT.items() if v[0].name() == f"Ht<{k}>"][0]
+            children, llen, litem = (self.heap_fn(n) for n in key)
+
+            def kids(n):
+                c = children(n)
+                return [litem(c, i) for i in range(llen(c))] if c is not None else []
+
+            def ht(n, depth=0):
+                if depth > 200:
+                    raise NotEvaluable("Ht: structure deeper than 200 (cycle?)")
+                return max((1 + ht(c, depth + 1) for c in kids(n)), default=0)
+
+            if kind == "Ht":
+                return ht
+            return lambda n, i: max((1 + ht(c) for c in kids(n)[:max(i, 0)]), default=0)
         if name == "FiltCb":
             return lambda s, cb, i: tuple(e for e in s[:max(i, 0)] if cb(e))
         if name.startswith("FiltK<"):
